@@ -777,31 +777,36 @@ Proof.
     cbn [snd] in Hstep. rewrite (IH (done ++ [f]) tr' HF' Hstep i), <- app_assoc. reflexivity.
 Qed.
 
+(* a key=* filter (of a by/without clause or added by ApplyMetricsQuery) *)
+Definition plain_star (f : tfilter) : Prop := f_is_star f = true /\ f_is_regex f = false.
+
+Lemma plain_star_filter k ign grp : plain_star (star_filter k ign grp).
+Proof. split; [unfold f_is_star; cbn [star_filter f_val]; apply str_eqb_refl | reflexivity]. Qed.
+
 (* key=* filters after at least one value filter only annotate the id strings *)
-Lemma step_star_keep name db b tr k i :
-  tr_mem i (snd (step_filter rmatch true true true name db (b, tr) (star_filter k false false))) = tr_mem i tr.
+Lemma step_star_keep name db b tr f i : plain_star f ->
+  tr_mem i (snd (step_filter rmatch true true true name db (b, tr) f)) = tr_mem i tr.
 Proof.
-  unfold step_filter. cbn [snd negb andb]. unfold f_is_wild, f_is_star, f_is_regex, star_filter. cbn [f_val f_op f_key].
-  rewrite str_eqb_refl. cbn [orb].
-  destruct (key_file_exists k db); cbn [negb]; [|reflexivity].
-  destruct (tree_vals name k db) eqn:Ev; [reflexivity|]. apply tr_mem_star_keep.
+  intros [Hs Hr]. unfold step_filter. cbn [snd negb andb]. unfold f_is_wild. rewrite Hs, Hr. cbn [orb].
+  destruct (key_file_exists (f_key f) db); cbn [negb]; [|reflexivity].
+  destruct (tree_vals name (f_key f) db) eqn:Ev; [reflexivity|]. apply tr_mem_star_keep.
 Qed.
 
-Lemma fold_stars_keep name db ks : forall b tr i,
-  tr_mem i (snd (fold_left (step_filter rmatch true true true name db) (map (fun k => star_filter k false false) ks) (b, tr))) = tr_mem i tr.
+Lemma fold_stars_keep name db fs : Forall plain_star fs -> forall b tr i,
+  tr_mem i (snd (fold_left (step_filter rmatch true true true name db) fs (b, tr))) = tr_mem i tr.
 Proof.
-  induction ks as [|k ks IH]; intros b tr i; cbn [map fold_left]; [reflexivity|].
-  destruct (step_filter rmatch true true true name db (b, tr) (star_filter k false false)) as [b' tr'] eqn:E.
-  rewrite IH. pose proof (step_star_keep name db b tr k i) as H. rewrite E in H. exact H.
+  induction 1 as [|f fs Hf _ IH]; intros b tr i; cbn [fold_left]; [reflexivity|].
+  destruct (step_filter rmatch true true true name db (b, tr) f) as [b' tr'] eqn:E.
+  rewrite IH. pose proof (step_star_keep name db b tr f i Hf) as H. rewrite E in H. exact H.
 Qed.
 
 (* without any value filter the key=* filters collect every series of the metric that has the key *)
-Lemma step_star_add name db b tr k i :
-  tr_mem i (snd (step_filter rmatch true true false name db (b, tr) (star_filter k false false))) =
-  tr_mem i tr || is_some (lab_of name k db i).
+Lemma step_star_add name db b tr f i : plain_star f ->
+  tr_mem i (snd (step_filter rmatch true true false name db (b, tr) f)) =
+  tr_mem i tr || is_some (lab_of name (f_key f) db i).
 Proof.
-  unfold step_filter. cbn [snd negb andb]. unfold f_is_wild, f_is_star, f_is_regex, star_filter. cbn [f_val f_op f_key].
-  rewrite str_eqb_refl. cbn [orb].
+  intros [Hs Hr]. unfold step_filter. cbn [snd negb andb]. unfold f_is_wild. rewrite Hs, Hr. cbn [orb].
+  set (k := f_key f).
   destruct (key_file_exists k db) eqn:Ek; cbn [negb].
   - destruct (tree_vals name k db) eqn:Ev.
     + rewrite <- cand_val_vals_all, Ev. cbn. rewrite orb_false_r. reflexivity.
@@ -815,13 +820,13 @@ Proof.
     apply existsb_exists. exists s. split; [eapply nth_error_In; eauto|]. unfold has_key. rewrite El. reflexivity.
 Qed.
 
-Lemma fold_stars_add name db ks : forall b tr i,
-  tr_mem i (snd (fold_left (step_filter rmatch true true false name db) (map (fun k => star_filter k false false) ks) (b, tr))) =
-  tr_mem i tr || existsb (fun k => is_some (lab_of name k db i)) ks.
+Lemma fold_stars_add name db fs : Forall plain_star fs -> forall b tr i,
+  tr_mem i (snd (fold_left (step_filter rmatch true true false name db) fs (b, tr))) =
+  tr_mem i tr || existsb (fun f => is_some (lab_of name (f_key f) db i)) fs.
 Proof.
-  induction ks as [|k ks IH]; intros b tr i; cbn [map fold_left existsb]; [rewrite orb_false_r; reflexivity|].
-  destruct (step_filter rmatch true true false name db (b, tr) (star_filter k false false)) as [b' tr'] eqn:E.
-  rewrite IH. pose proof (step_star_add name db b tr k i) as H. rewrite E in H. cbn [snd] in H.
+  induction 1 as [|f fs Hf _ IH]; intros b tr i; cbn [fold_left existsb]; [rewrite orb_false_r; reflexivity|].
+  destruct (step_filter rmatch true true false name db (b, tr) f) as [b' tr'] eqn:E.
+  rewrite IH. pose proof (step_star_add name db b tr f i Hf) as H. rewrite E in H. cbn [snd] in H.
   rewrite H, orb_assoc. reflexivity.
 Qed.
 
@@ -881,13 +886,11 @@ Proof.
   rewrite Hm. cbn [negb]. rewrite E1, E2. auto.
 Qed.
 
-Lemma filter_star_stars ks :
-  filter (fun f => negb (f_is_star f)) (map (fun k => star_filter k false false) ks) = [] /\
-  filter f_is_star (map (fun k => star_filter k false false) ks) = map (fun k => star_filter k false false) ks.
+Lemma filter_plain_stars fs : Forall plain_star fs ->
+  filter (fun f => negb (f_is_star f)) fs = [] /\ filter f_is_star fs = fs.
 Proof.
-  induction ks as [|k ks [E1 E2]]; cbn [map filter]; [auto|].
-  assert (Hm : f_is_star (star_filter k false false) = true) by (unfold f_is_star; cbn [star_filter f_val]; apply str_eqb_refl).
-  rewrite Hm. cbn [negb]. rewrite E1, E2. auto.
+  induction 1 as [|f fs [Hs _] _ [E1 E2]]; cbn [filter]; [auto|].
+  rewrite Hs. cbn [negb]. rewrite E1, E2. auto.
 Qed.
 
 Lemma sat_matcher m s v : lookup (m_key m) (s_labels s) = Some v -> v <> [] ->
@@ -897,37 +900,32 @@ Proof.
   destruct (m_op m); try reflexivity; destruct v; congruence.
 Qed.
 
-Theorem select_exact_guarded name ms db :
-  select_guard name ms db = true ->
+(* the filter loop on  matchers ++ key=* filters  whose keys are pairwise distinct and cover every tag key *)
+Lemma select_core name ms extra db :
+  forallb (fun m => negb (str_eqb (m_val m) star_val)) ms = true ->
+  Forall plain_star extra ->
+  NoDup (map f_key (map of_matcher ms ++ extra)) ->
+  (forall k, In k (all_keys db) -> In k (map f_key (map of_matcher ms ++ extra))) ->
+  (forall j s', nth_error db j = Some s' -> series_ok name ms s' = true) ->
   forall i s, nth_error db i = Some s ->
-    (tr_mem i (tracked rmatch (QSel name ms) db) = true <-> spec_selected rmatch name ms s = true).
+    forall others stars, reorder (map of_matcher ms ++ extra) = (others, stars) ->
+    (tr_mem i (snd (fold_left (step_filter rmatch true true (negb (Nat.eqb (length others) 0)) name db)
+                              (others ++ stars) (true, []))) = true
+     <-> spec_selected rmatch name ms s = true).
 Proof.
-  unfold select_guard. rewrite !andb_true_iff. intros [[Gstar Gdup] Gdb] i s Hi.
-  assert (Gs : forall j s', nth_error db j = Some s' -> series_ok name ms s' = true).
-  { intros j s' Hj. rewrite forallb_forall in Gdb. apply Gdb. eapply nth_error_In; eauto. }
-  unfold tracked. cbn [flags query_filters q_name]. unfold apply_filters.
-  rewrite filter_matchers_ignore.
-  set (ks := filter (fun k => negb (mem_str k (map f_key (map of_matcher ms)))) (all_keys db)).
-  set (stars0 := map (fun k => star_filter k false false) ks).
-  assert (Ekeys : map f_key (map of_matcher ms) = map m_key ms) by (rewrite map_map; reflexivity).
-  assert (Hnd : NoDup (map f_key (map of_matcher ms ++ stars0))).
-  { rewrite map_app, Ekeys. unfold stars0. rewrite map_map. cbn [star_filter f_key]. rewrite map_id.
-    apply NoDup_app_local.
-    - apply nodup_strb_NoDup, Gdup.
-    - apply NoDup_filter, all_keys_spec.
-    - intros k Hk Hk'. unfold ks in Hk'. apply filter_In in Hk'. destruct Hk' as [_ Hk'].
-      rewrite negb_true_iff, Ekeys, mem_str_false in Hk'. tauto. }
-  rewrite (reorder_partition _ Hnd).
-  set (srt := sort_by_key (map of_matcher ms ++ stars0)).
+  intros Gstar Hex Hnd Hcov Gs i s Hi others0 stars0 Hre.
+  rewrite (reorder_partition _ Hnd) in Hre. injection Hre as <- <-.
+  set (srt := sort_by_key (map of_matcher ms ++ extra)).
   assert (Po : Permutation (filter (fun f => negb (f_is_star f)) srt) (map of_matcher ms)).
   { eapply perm_trans; [apply perm_filter, sort_perm|]. rewrite filter_app.
-    rewrite (proj1 (filter_nonstar_matchers ms Gstar)). unfold stars0. rewrite (proj1 (filter_star_stars ks)), app_nil_r. auto. }
-  assert (Ps : Permutation (filter f_is_star srt) stars0).
+    rewrite (proj1 (filter_nonstar_matchers ms Gstar)), (proj1 (filter_plain_stars extra Hex)), app_nil_r. auto. }
+  assert (Ps : Permutation (filter f_is_star srt) extra).
   { eapply perm_trans; [apply perm_filter, sort_perm|]. rewrite filter_app.
-    rewrite (proj2 (filter_nonstar_matchers ms Gstar)). unfold stars0. rewrite (proj2 (filter_star_stars ks)). auto. }
-  unfold stars0 in Ps. apply Permutation_map_inv in Ps. destruct Ps as [ks' [Es Pk]]. rewrite Es.
+    rewrite (proj2 (filter_nonstar_matchers ms Gstar)), (proj2 (filter_plain_stars extra Hex)). auto. }
+  assert (Hst : Forall plain_star (filter f_is_star srt)).
+  { apply Forall_forall. intros f Hf. rewrite Forall_forall in Hex. apply Hex. eapply Permutation_in; eauto. }
+  set (stars := filter f_is_star srt) in *.
   set (others := filter (fun f => negb (f_is_star f)) srt) in *.
-  (* what the engine's filters mean on series i *)
   assert (Hsat : msat name others db i = spec_selected rmatch name ms s).
   { unfold msat, spec_selected. rewrite Hi.
     destruct (str_eqb (s_name s) name) eqn:En; [cbn [andb] | reflexivity].
@@ -942,16 +940,18 @@ Proof.
   destruct ms as [|m0 ms'].
   - (* no matcher: only key=* filters *)
     cbn [map] in Po. apply Permutation_sym, Permutation_nil in Po. rewrite Po. cbn [app length Nat.eqb negb].
-    rewrite fold_stars_add. cbn [tr_mem orb].
-    rewrite <- (existsb_perm _ _ _ Pk). unfold ks. cbn [map mem_str negb]. rewrite filter_true.
+    rewrite (fold_stars_add name db stars Hst). cbn [tr_mem orb].
+    rewrite (existsb_perm _ _ _ Ps).
     unfold spec_selected. cbn [forallb]. rewrite andb_true_r. rewrite existsb_exists. split.
-    + intros [k [_ Hk]]. unfold lab_of in Hk. rewrite Hi in Hk. destruct (str_eqb (s_name s) name); [reflexivity|discriminate].
+    + intros [f [_ Hk]]. unfold lab_of in Hk. rewrite Hi in Hk. destruct (str_eqb (s_name s) name); [reflexivity|discriminate].
     + intros En. specialize (Gs _ _ Hi). unfold series_ok in Gs. rewrite En in Gs. cbn [negb orb] in Gs.
       rewrite !andb_true_iff in Gs. destruct Gs as [[_ Gl] _].
       destruct (s_labels s) as [|[k0 v0] l] eqn:El; [discriminate|].
-      exists k0. split.
-      * apply all_keys_spec. exists s. split; [eapply nth_error_In; eauto|]. rewrite El. left. reflexivity.
-      * unfold lab_of. rewrite Hi, En, El. cbn [lookup]. rewrite str_eqb_refl. reflexivity.
+      assert (Hk0 : In k0 (all_keys db)).
+      { apply all_keys_spec. exists s. split; [eapply nth_error_In; eauto|]. rewrite El. left. reflexivity. }
+      apply Hcov in Hk0. cbn [map app] in Hk0. apply in_map_iff in Hk0. destruct Hk0 as [f [Ef Hf]].
+      exists f. split; [exact Hf|].
+      unfold lab_of. rewrite Hi, En, El, Ef. cbn [lookup]. rewrite str_eqb_refl. reflexivity.
   - (* at least one matcher: value filters, then annotating stars *)
     destruct others as [|f fs] eqn:Eo; [apply Permutation_nil in Po; discriminate|].
     cbn [length Nat.eqb negb]. rewrite fold_left_app. cbn [fold_left].
@@ -971,7 +971,86 @@ Proof.
     assert (H2 : tr_mem i (snd st2) = msat name ([f] ++ fs) db i).
     { exact (fold_values true name db fs [f] (snd st1) HF' H1 i). }
     rewrite (surjective_pairing st2).
-    rewrite fold_stars_keep, H2. cbn [app]. rewrite Hsat. tauto.
+    rewrite (fold_stars_keep name db stars Hst), H2. cbn [app]. rewrite Hsat. tauto.
+Qed.
+
+Lemma matcher_keys ms : map f_key (map of_matcher ms) = map m_key ms.
+Proof. rewrite map_map. reflexivity. Qed.
+
+Lemma star_keys ign grp ks : map f_key (map (fun k => star_filter k ign grp) ks) = ks.
+Proof. rewrite map_map. cbn [star_filter f_key]. apply map_id. Qed.
+
+Lemma stars_plain ign grp ks : Forall plain_star (map (fun k => star_filter k ign grp) ks).
+Proof. apply Forall_forall. intros f Hf. apply in_map_iff in Hf. destruct Hf as [k [<- _]]. apply plain_star_filter. Qed.
+
+Theorem select_exact_guarded name ms db :
+  select_guard name ms db = true ->
+  forall i s, nth_error db i = Some s ->
+    (tr_mem i (tracked rmatch (QSel name ms) db) = true <-> spec_selected rmatch name ms s = true).
+Proof.
+  unfold select_guard. rewrite !andb_true_iff. intros [[Gstar Gdup] Gdb] i s Hi.
+  assert (Gs : forall j s', nth_error db j = Some s' -> series_ok name ms s' = true).
+  { intros j s' Hj. rewrite forallb_forall in Gdb. apply Gdb. eapply nth_error_In; eauto. }
+  unfold tracked. cbn [flags query_filters q_name]. unfold apply_filters.
+  set (ks := filter (fun k => negb (mem_str k (map f_key (map of_matcher ms)))) (all_keys db)).
+  set (extra := map (fun k => star_filter k false false) ks).
+  destruct (reorder (map of_matcher ms ++ extra)) as [others stars] eqn:Hre.
+  apply (select_core name ms extra db Gstar (stars_plain _ _ ks)); try assumption.
+  - rewrite map_app, matcher_keys. unfold extra. rewrite star_keys. apply NoDup_app_local.
+    + apply nodup_strb_NoDup, Gdup.
+    + apply NoDup_filter, all_keys_spec.
+    + intros k Hk Hk'. unfold ks in Hk'. apply filter_In in Hk'. destruct Hk' as [_ Hk'].
+      rewrite negb_true_iff, matcher_keys, mem_str_false in Hk'. tauto.
+  - intros k Hk. rewrite map_app, in_app_iff. unfold extra. rewrite star_keys.
+    destruct (mem_str k (map f_key (map of_matcher ms))) eqn:E; [left; apply mem_str_In; exact E|].
+    right. unfold ks. apply filter_In. split; [exact Hk|]. rewrite E. reflexivity.
+Qed.
+
+Lemma filter_no_name l : mem_str name_label l = false -> filter (fun k => negb (str_eqb k name_label)) l = l.
+Proof.
+  induction l as [|x l IH]; cbn; [reflexivity|]. rewrite orb_false_iff. intros [H1 H2].
+  rewrite H1. cbn. rewrite (IH H2). reflexivity.
+Qed.
+
+(* the same for  fn without (l) (name{ms}) : FULL STATEMENT for the fixed code — every series that satisfies
+   the matchers is selected, also when ALL its labels are named in l (refuted for the pre-fix code,
+   prefix_without_all_labels_refuted) *)
+Theorem select_without_exact_guarded fn l name ms db :
+  l <> [] -> without_guard l ms = true -> select_guard name ms db = true ->
+  forall i s, nth_error db i = Some s ->
+    (tr_mem i (tracked rmatch (QAgg fn (GWithout l) name ms) db) = true <-> spec_selected rmatch name ms s = true).
+Proof.
+  intros Hl Hw. unfold without_guard in Hw. rewrite !andb_true_iff, negb_true_iff in Hw. destruct Hw as [[Wd Wn] Wm].
+  unfold select_guard. rewrite !andb_true_iff. intros [[Gstar Gdup] Gdb] i s Hi.
+  assert (Gs : forall j s', nth_error db j = Some s' -> series_ok name ms s' = true).
+  { intros j s' Hj. rewrite forallb_forall in Gdb. apply Gdb. eapply nth_error_In; eauto. }
+  unfold tracked. rewrite flags_without by reflexivity. cbn [query_filters q_name group_list is_without].
+  rewrite (filter_no_name l Wn). unfold apply_filters.
+  set (wl := map (fun k => star_filter k true true) l).
+  set (ks := filter (fun k => negb (mem_str k (map f_key (map of_matcher ms ++ wl)))) (all_keys db)).
+  set (extra := wl ++ map (fun k => star_filter k false false) ks).
+  rewrite <- app_assoc. fold extra.
+  destruct (reorder (map of_matcher ms ++ extra)) as [others stars] eqn:Hre.
+  assert (Hkeys : map f_key (map of_matcher ms ++ wl) = map m_key ms ++ l)
+    by (rewrite map_app, matcher_keys; unfold wl; rewrite star_keys; reflexivity).
+  assert (Hdisj : forall k, In k (map m_key ms) -> ~ In k l).
+  { intros k Hk Hk'. rewrite forallb_forall in Wm. specialize (Wm k Hk'). rewrite negb_true_iff, mem_str_false in Wm. tauto. }
+  apply (select_core name ms extra db Gstar); try assumption.
+  - unfold extra. apply Forall_app. split; apply stars_plain.
+  - rewrite map_app, matcher_keys. unfold extra. rewrite map_app. unfold wl. rewrite !star_keys.
+    apply NoDup_app_local; [apply nodup_strb_NoDup, Gdup | apply NoDup_app_local |].
+    + apply nodup_strb_NoDup, Wd.
+    + apply NoDup_filter, all_keys_spec.
+    + intros k Hk Hk'. unfold ks in Hk'. apply filter_In in Hk'. destruct Hk' as [_ Hk'].
+      rewrite negb_true_iff, Hkeys, mem_str_false, in_app_iff in Hk'. tauto.
+    + intros k Hk Hk'. rewrite in_app_iff in Hk'. destruct Hk' as [Hk'|Hk']; [exact (Hdisj k Hk Hk')|].
+      unfold ks in Hk'. apply filter_In in Hk'. destruct Hk' as [_ Hk'].
+      rewrite negb_true_iff, Hkeys, mem_str_false, in_app_iff in Hk'. tauto.
+  - intros k Hk. rewrite map_app, matcher_keys. unfold extra. rewrite map_app. unfold wl. rewrite !star_keys.
+    rewrite !in_app_iff.
+    destruct (mem_str k (map f_key (map of_matcher ms ++ wl))) eqn:E.
+    + apply mem_str_In in E. rewrite Hkeys, in_app_iff in E. tauto.
+    + right. right. unfold ks. apply filter_In. split; [exact Hk|]. rewrite E. reflexivity.
 Qed.
 
 End WithRegex.
@@ -1353,42 +1432,82 @@ Example extract_guard_nonvacuous : extract_guard w_m [([97;98],[120]); (w_b,[112
                                    extract_guard w_m [([97;98],[120]); (w_b,[112])] w_b = false.
 Proof. split; reflexivity. Qed.
 
-(* ---------- vector arithmetic ---------- *)
+(* ---------- vector arithmetic (fixed code: fixes/C09-arith-missing-sample) ---------- *)
 Section Arith.
 Variable rmatch : str -> str -> bool.
 
+Definition pair_samples (op : binop) (l1 l2 : list (Z * Q)) : list (Z * Q) :=
+  flat_map (fun tv => match find (fun tv2 => Z.eqb (fst tv2) (fst tv)) l2 with
+                      | Some tv2 => [(fst tv, bin_apply op (snd tv) (snd tv2))]
+                      | None => []
+                      end) l1.
+
+Lemma in_pair_samples op l1 l2 t v : In (t, v) (pair_samples op l1 l2) ->
+  exists x y, In (t, x) l1 /\ In (t, y) l2 /\ v = bin_apply op x y.
+Proof.
+  unfold pair_samples. rewrite in_flat_map. intros [[t1 x] [H1 H]]. cbn [fst snd] in H.
+  destruct (find _ l2) as [[t2 y]|] eqn:F; [|destruct H]. destruct H as [E|[]]. injection E as <- <-.
+  apply find_some in F. destruct F as [F1 F2]. cbn [fst] in F2. apply Z.eqb_eq in F2. subst t2.
+  exists x, y. auto.
+Qed.
+
+Lemma pair_samples_times op l1 l2 t : In t (map fst (pair_samples op l1 l2)) <->
+  In t (map fst l1) /\ In t (map fst l2).
+Proof.
+  split.
+  - intros H. apply in_map_iff in H. destruct H as [[t' v] [<- H]]. apply in_pair_samples in H.
+    destruct H as [x [y [H1 [H2 _]]]]. cbn [fst]. split; apply in_map_iff; [exists (t', x) | exists (t', y)]; auto.
+  - intros [H1 H2]. apply in_map_iff in H1. destruct H1 as [[t1 x] [E1 H1]]. cbn [fst] in E1. subst t1.
+    apply in_map_iff in H2. destruct H2 as [[t2 y] [E2 H2]]. cbn [fst] in E2. subst t2.
+    destruct (find (fun tv2 => Z.eqb (fst tv2) t) l2) as [[t2 y']|] eqn:F.
+    + apply in_map_iff. exists (t, bin_apply op x y'). split; [reflexivity|].
+      unfold pair_samples. apply in_flat_map. exists (t, x). split; [exact H1|]. cbn [fst snd]. rewrite F. left. reflexivity.
+    + exfalso. pose proof (find_none _ _ F (t, y) H2) as Hn. cbn [fst] in Hn. rewrite Z.eqb_refl in Hn. discriminate.
+Qed.
+
+Lemma run_arith_in op q1 q2 db e : In e (run_arith rmatch op q1 q2 db) ->
+  exists e1 e2, In e1 (run_query rmatch q1 db) /\ In e2 (run_query rmatch q2 db) /\
+    fst e = fst e1 /\ fst e2 = q_name q2 ++ skipn (length (q_name q1)) (fst e1) /\
+    snd e = pair_samples op (snd e1) (snd e2) /\ snd e <> [].
+Proof.
+  unfold run_arith. rewrite in_flat_map. intros [e1 [H1 H]].
+  destruct (find _ (run_query rmatch q2 db)) as [e2|] eqn:F; [|destruct H].
+  apply find_some in F. destruct F as [F1 F2]. apply str_eqb_eq in F2.
+  fold (pair_samples op (snd e1) (snd e2)) in H.
+  destruct (pair_samples op (snd e1) (snd e2)) as [|p l] eqn:E; [destruct H|].
+  destruct H as [<-|[]]. exists e1, e2. cbn [fst snd]. repeat split; try assumption; try (symmetry; exact E). discriminate.
+Qed.
+
 (* every output series of  q1 op q2  comes from a left series whose label text (the id minus the metric
-   name) also names a right series; its timestamps are the left series' timestamps *)
+   name) also names a right series; it has a sample exactly where BOTH series have one *)
 Theorem vector_arith_matches_labels op q1 q2 db e :
   In e (run_arith rmatch op q1 q2 db) ->
   exists e1 e2, In e1 (run_query rmatch q1 db) /\ In e2 (run_query rmatch q2 db) /\
     fst e = fst e1 /\
     fst e2 = q_name q2 ++ skipn (length (q_name q1)) (fst e1) /\
-    map fst (snd e) = map fst (snd e1).
+    forall t, In t (map fst (snd e)) <-> In t (map fst (snd e1)) /\ In t (map fst (snd e2)).
 Proof.
-  unfold run_arith. rewrite in_flat_map. intros [e1 [H1 H]].
-  destruct (find _ (run_query rmatch q2 db)) as [e2|] eqn:F; [|destruct H].
-  destruct H as [<-|[]]. apply find_some in F. destruct F as [F1 F2]. apply str_eqb_eq in F2.
-  exists e1, e2. cbn [fst snd]. repeat split; try assumption. rewrite map_map. reflexivity.
+  intros H. destruct (run_arith_in _ _ _ _ _ H) as [e1 [e2 [H1 [H2 [H3 [H4 [H5 _]]]]]]].
+  exists e1, e2. split; [exact H1|]. split; [exact H2|]. split; [exact H3|]. split; [exact H4|].
+  intros t. rewrite H5. apply pair_samples_times.
 Qed.
 
-(* where both operands have a sample the value is  left op right *)
+(* FULL STATEMENT (fixed code): every output sample is  left op right  of samples at the same timestamp *)
 Theorem vector_arith_value op q1 q2 db e t v :
   In e (run_arith rmatch op q1 q2 db) -> In (t, v) (snd e) ->
-  exists e1 e2 x, In e1 (run_query rmatch q1 db) /\ In e2 (run_query rmatch q2 db) /\ fst e = fst e1 /\
-    In (t, x) (snd e1) /\
-    v = bin_apply op x (match find (fun tv2 => Z.eqb (fst tv2) t) (snd e2) with Some tv2 => snd tv2 | None => 0%Q end).
+  exists e1 e2 x y, In e1 (run_query rmatch q1 db) /\ In e2 (run_query rmatch q2 db) /\ fst e = fst e1 /\
+    fst e2 = q_name q2 ++ skipn (length (q_name q1)) (fst e1) /\
+    In (t, x) (snd e1) /\ In (t, y) (snd e2) /\ v = bin_apply op x y.
 Proof.
-  unfold run_arith. rewrite in_flat_map. intros [e1 [H1 H]] Hv.
-  destruct (find _ (run_query rmatch q2 db)) as [e2|] eqn:F; [|destruct H].
-  destruct H as [<-|[]]. apply find_some in F. destruct F as [F1 F2]. cbn [snd] in Hv.
-  apply in_map_iff in Hv. destruct Hv as [[t' x] [E Hx]]. cbn [fst snd] in E. injection E as <- <-.
-  exists e1, e2, x. repeat split; assumption.
+  intros H Hv. destruct (run_arith_in _ _ _ _ _ H) as [e1 [e2 [H1 [H2 [H3 [H4 [H5 _]]]]]]].
+  rewrite H5 in Hv. apply in_pair_samples in Hv. destruct Hv as [x [y [Hx [Hy Ev]]]].
+  exists e1, e2, x, y. repeat split; assumption.
 Qed.
 End Arith.
 
 (* witnesses: (1) m{a="1",b="p"} and n{a="1",b="p"} are not paired by  m{b!="zz"} + n  because the left id
-   lists b first; (2) a right-hand sample missing at t=20 is taken as 0 (PromQL: no output sample) *)
+   lists b first (still the code's behaviour); (2) PRE-FIX: a right-hand sample missing at t=20 was taken
+   as 0; the fixed code has no output sample there *)
 Definition w_db2 : list series :=
   [ {| s_name := w_m; s_labels := [(w_a, [49]); (w_b, [112])]; s_chunks := [[(10, 60); (20, 120)]%Z] |};
     {| s_name := w_n; s_labels := [(w_a, [49]); (w_b, [112])]; s_chunks := [[(10, 240)]%Z] |} ].
@@ -1400,11 +1519,28 @@ Theorem arith_label_order_refuted :
   run_arith rm BAdd (QSel w_m [mk w_b MNe [122; 122]]) (QSel w_n []) w_db2 = [].
 Proof. vm_compute. repeat split; reflexivity. Qed.
 
-Theorem arith_missing_sample_refuted :
+Theorem prefix_arith_missing_sample_refuted :
   let rm := fun _ _ : str => false in
   map (fun e => map fst (snd e)) (run_query rm (QSel w_n []) w_db2) = [[10%Z]] /\
-  map (fun e => map fst (snd e)) (run_arith rm BMul (QSel w_m []) (QSel w_n []) w_db2) = [[10%Z; 20%Z]].
+  map (fun e => map fst (snd e)) (run_arith_prefix rm BMul (QSel w_m []) (QSel w_n []) w_db2) = [[10%Z; 20%Z]].
 Proof. vm_compute. split; reflexivity. Qed.
+
+Example fixed_arith_no_sample_without_right :
+  map (fun e => map fst (snd e)) (run_arith (fun _ _ => false) BMul (QSel w_m []) (QSel w_n []) w_db2) = [[10%Z]].
+Proof. vm_compute. reflexivity. Qed.
+
+(* PRE-FIX: the only series m{a="1"} satisfies the (empty) matcher list and was not found by
+   sum without (a) (m); the fixed code finds it *)
+Theorem prefix_without_all_labels_refuted :
+  let rm := fun _ _ : str => false in
+  spec_selected rm w_m [] {| s_name := w_m; s_labels := [(w_a, [49])]; s_chunks := [[(10, 60)]%Z] |} = true /\
+  tracked_prefix rm (QAgg ASum (GWithout [w_a]) w_m []) w_db1 = [] /\
+  run_query rm (QAgg ASum (GWithout [w_a]) w_m []) w_db1 = [([109; 123], [(10%Z, 60%Q)])].
+Proof. vm_compute. repeat split; reflexivity. Qed.
+
+Example without_guard_nonvacuous : without_guard [w_a] [mk w_b MNe [50]] = true.
+Proof. reflexivity. Qed.
+
 
 (* ---------- the relations for whole queries (same selector, same grouping clause) ---------- *)
 Section Queries.
